@@ -44,9 +44,9 @@ Section C04.
   Variable vary_header : request -> option (bytes * option bytes) -> fatx -> list (bytes * bytes).
   Variable clear_alias : request -> option request.
   Notation missR := (missX hstate compute true ims_on fix_ovkey fix_svary sfilter negotiate vary_tuple vary_header).
-  Notation serveR := (serveX hstate compute true ims_on true fix_ovkey fix_svary sfilter parse_ims sanitize_ok prime override
+  Notation serveR := (serveX hstate compute true ims_on true fix_ovkey fix_svary true sfilter parse_ims sanitize_ok prime override
                              negotiate vary_tuple vary_header).
-  Notation runR_state := (runX_state hstate compute true ims_on true fix_ovkey fix_clear fix_svary sfilter parse_ims sanitize_ok
+  Notation runR_state := (runX_state hstate compute true ims_on true fix_ovkey fix_clear fix_svary true sfilter parse_ims sanitize_ok
                                      prime override negotiate vary_tuple vary_header clear_alias).
 
   (** the miss arm stores exactly when admission says so, and nothing else changes in the cache *)
@@ -161,10 +161,10 @@ Theorem computed_once_history :
   snd (fst (xlookup (lookup_req (prime r0) (override r0)) c now0)) = None ->
   compute hs (prime r0) (override r0) true = (x, hs1, lg1) -> may_store_x true sfilter (rq_method (prime r0)) x = true ->
   Forall (benign fix_clear prime override clear_alias r0 x) ops ->
-  let serveR := serveX hstate compute true ims_on true true fix_svary sfilter parse_ims sanitize_ok prime override
+  let serveR := serveX hstate compute true ims_on true true fix_svary true sfilter parse_ims sanitize_ok prime override
                        negotiate vary_tuple vary_header in
   let st1 := fst (fst (serveR (c, hs) now0 r0)) in
-  let run := runX_state hstate compute true ims_on true true fix_clear fix_svary sfilter parse_ims sanitize_ok prime override
+  let run := runX_state hstate compute true ims_on true true fix_clear fix_svary true sfilter parse_ims sanitize_ok prime override
                         negotiate vary_tuple vary_header clear_alias st1 now0 ops in
   snd run <= D ->
   snd (serveR (fst run) (snd run) r0) = [] /\ snd (fst (fst (serveR (fst run) (snd run) r0))) = snd (fst run) /\
@@ -192,22 +192,21 @@ Theorem uncacheable_always_recomputed :
      vary_tuple r ov = vary_tuple r' ov' -> rq_path (lookup_req r ov) = rq_path (lookup_req r' ov') ->
      (qmx (cf r ov true) = true -> path_query (lookup_req r ov) = path_query (lookup_req r' ov')) ->
      cf r ov true = cf r' ov' true) ->
-  (forall r ov r' ov', rq_path (lookup_req r ov) = rq_path (lookup_req r' ov') -> qmx (cf r ov true) = qmx (cf r' ov' true)) ->
   (forall r ov, f_spref (fx_fat (cf r ov false)) = SP_NONE) ->
   forall ops hs now r0,
   Forall (op_no_imsx ims_on prime) ops -> no_imsx ims_on prime r0 ->
   may_store_x true sfilter (rq_method (prime r0)) (cf (prime r0) (override r0) (sanitize_ok r0)) = false ->
-  let serveC := serveX hstate compute true ims_on true true true sfilter parse_ims sanitize_ok prime override
+  let serveC := serveX hstate compute true ims_on true true true true sfilter parse_ims sanitize_ok prime override
                        negotiate vary_tuple vary_header in
-  let st := runX_state hstate compute true ims_on true true fix_clear true sfilter parse_ims sanitize_ok prime override
+  let st := runX_state hstate compute true ims_on true true fix_clear true true sfilter parse_ims sanitize_ok prime override
                        negotiate vary_tuple vary_header clear_alias ([], hs) now ops in
   snd (serveC (fst st) (snd st) r0) = snd (compute (snd (fst st)) (prime r0) (override r0) (sanitize_ok r0)) /\
   snd (fst (fst (serveC (fst st) (snd st) r0))) = snd (fst (compute (snd (fst st)) (prime r0) (override r0) (sanitize_ok r0))).
 Proof.
   intros hstate compute ims_on fix_clear sfilter parse_ims sanitize_ok prime override negotiate vary_tuple vary_header
-         clear_alias cf Hpure contract pref_uniform Herr ops hs now r0 Hno Hims Hnot.
+         clear_alias cf Hpure contract Herr ops hs now r0 Hno Hims Hnot.
   exact (uncacheable_recomputed_history hstate compute ims_on fix_clear sfilter parse_ims sanitize_ok prime override negotiate
-           vary_tuple vary_header clear_alias cf Hpure contract pref_uniform Herr ops [] hs now r0
+           vary_tuple vary_header clear_alias cf Hpure contract Herr ops [] hs now r0
            (TInv_nil vary_tuple cf) (AdmInv_nil sfilter) Hno Hims Hnot).
 Qed.
 
@@ -285,6 +284,6 @@ Example c04_ex_among : lifetime_ms (mkFat 200 [(B "cache-control", B "public, ma
 Proof. vm_compute. reflexivity. Qed.
 (** the repaired model stores the admissible variant only and expires the entry with its shortest-lived variant *)
 Example c04_ex_repaired_push :
-  bodies (run_cfgx true (mkCfgX (cx_base w1_cx) (cx_xhandlers w1_cx) 0 None true true true true)
+  bodies (run_cfgx true (mkCfgX (cx_base w1_cx) (cx_xhandlers w1_cx) 0 None true true true true true)
                    (w1_ops ++ [XReq (w_req (B "b")); XReq (w_req (B "a"))])) = [B "a=1"; B "b=2"; B "b=3"; B "a=1"].
 Proof. vm_compute. reflexivity. Qed.
